@@ -20,7 +20,12 @@ var pnftURLs = []string{
 func (g *G) idPool(adversarial bool) []string {
 	ids := []string{"a", "ab", "abc", "b", "A", "a/", "a b", "a-1"}
 	if adversarial {
-		ids = append(ids, "a\xffb", strings.Repeat("z", 300), "a/b", "/", "é")
+		ids = append(ids, strings.Repeat("z", 300), "a/b", "/", "é")
+		if !g.W.Opt.Open["C08-invalid-utf8-export"] {
+			ids = append(ids, "a\xffb")
+		} else {
+			g.W.Excluded["C08-invalid-utf8-export"]++
+		}
 		if !g.W.Opt.Open["C12-nul-aliasing"] {
 			ids = append(ids, "a\x00b", "b\x00c", "\x00", "a\x00")
 		} else {
@@ -42,7 +47,7 @@ func (g *G) genPnftMsg() (sdk.Msg, string) {
 		toks = append(toks, k)
 	}
 	sortTokenKeys(toks)
-	kind := g.weighted("pnft-kind", "create", 3, "update", 2, "delete", 1, "handover", 3, "mint", 6, "transfer", 4, "burn", 2)
+	kind := g.weighted("pnft-kind", "create", 3, "update", 2, "delete", 1, "handover", g.bias("pnft-handover", 3), "mint", 6, "transfer", g.bias("pnft-transfer", 4), "burn", 2)
 	if len(denoms) == 0 && g.chance("bootstrap", 85) {
 		kind = "create"
 	}
@@ -57,6 +62,14 @@ func (g *G) genPnftMsg() (sdk.Msg, string) {
 			actor = i
 		}
 	}
+	// a former owner (after a hand-over) tries again
+	formerAct := func(set map[string]bool) bool {
+		if len(set) == 0 || !g.chance("by-former-owner", g.bias("former-owner", 20)) {
+			return false
+		}
+		ownerAct([]byte(pick(g, "former", sortedKeys(set))))
+		return true
+	}
 	receiver := func() string {
 		if g.chance("ghost-receiver", 8) {
 			return pick(g, "ghost", ghostAddresses())
@@ -69,13 +82,15 @@ func (g *G) genPnftMsg() (sdk.Msg, string) {
 			Description: pick(g, "desc", []string{"", "d"}), Uri: pick(g, "uri", []string{"", "u"}), UriHash: "", Data: pick(g, "data", []string{"", "{}"}),
 			Creator: g.addrString("creator-spelling", actor)}, "create-denom"
 	case "update":
-		if d != nil && g.chance("by-owner", 65) {
+		if formerAct(m.FormerDenomOwner[denom]) {
+		} else if d != nil && g.chance("by-owner", 65) {
 			ownerAct(d.OwnerAddr)
 		}
 		return &pnfttypes.MsgUpdateDenomRequest{Id: denom, Name: pick(g, "name", []string{"", "n2"}), Symbol: pick(g, "sym", []string{"", "S2"}),
 			Description: pick(g, "desc", []string{"", "d2"}), Data: pick(g, "data", []string{"", "x"}), Updater: g.addrString("updater-spelling", actor)}, "update-denom"
 	case "delete":
-		if d != nil && g.chance("by-owner", 65) {
+		if formerAct(m.FormerDenomOwner[denom]) {
+		} else if d != nil && g.chance("by-owner", 65) {
 			ownerAct(d.OwnerAddr)
 		}
 		if d != nil && len(m.TokensOf(denom)) > 0 && w.Opt.Open["C12-orphan-tokens"] {
@@ -85,12 +100,14 @@ func (g *G) genPnftMsg() (sdk.Msg, string) {
 		}
 		return &pnfttypes.MsgDeleteDenomRequest{Id: denom, Remover: g.bech(actor)}, "delete-denom"
 	case "handover":
-		if d != nil && g.chance("by-owner", 70) {
+		if formerAct(m.FormerDenomOwner[denom]) {
+		} else if d != nil && g.chance("by-owner", 70) {
 			ownerAct(d.OwnerAddr)
 		}
 		return &pnfttypes.MsgTransferDenomRequest{Id: denom, Sender: g.bech(actor), Receiver: receiver()}, "transfer-denom"
 	case "mint":
-		if d != nil && g.chance("by-owner", 75) {
+		if formerAct(m.FormerDenomOwner[denom]) {
+		} else if d != nil && g.chance("by-owner", 75) {
 			ownerAct(d.OwnerAddr)
 		}
 		id := pick(g, "token-id", ids)
@@ -106,7 +123,8 @@ func (g *G) genPnftMsg() (sdk.Msg, string) {
 	if len(toks) > 0 && g.chance("aim-token", 88) {
 		tk = pick(g, "existing-token", toks)
 	}
-	if t := m.Tokens[tk]; t != nil && g.chance("by-owner", 65) {
+	if formerAct(m.FormerTokenOwner[tk]) {
+	} else if t := m.Tokens[tk]; t != nil && g.chance("by-owner", 65) {
 		ownerAct(t.Owner)
 	}
 	if kind == "transfer" {
